@@ -18,7 +18,7 @@ pub struct C06;
 fn gen_cfg(tier: Tier) -> GenCfg {
     let mut cfg = super::c01::gen_cfg(tier);
     cfg.pool = 5;
-    cfg.w_special_names = 0;
+    cfg.w_special_names = 3;
     cfg.restart_policies = vec![];
     cfg
 }
